@@ -19,6 +19,13 @@ Streams (all compared with the Lean model `Clikit.Tokenizer`, all judged by `ora
   v  argv lists given to ArgvArgs directly (script name first; the empty list raises IndexError in the
      implementation and in the model, and the oracle demands nothing there).
   d  a few deeply nested strings (alternating quotes) - the recursion of `_parse_quoted_string`.
+  w  the whitespace table: for every block of 8192 code points (all of Unicode) the code points the model's
+     generated `isSpace` table calls whitespace against `str.isspace` of the interpreter running the real tokenizer.
+
+The hypotheses of the theorems are decidable conditions on the input (`wfPieces` / trailing whitespace for
+quote_roundtrip, `expressible` for quote_roundtrip_single/_iff, `unquoted` for unquoted_split); the model's
+decisions are part of the correspondence: they are compared with the same conditions stated in Python over the
+real `str.isspace` (`py_wf`, `py_expressible`, "no quote or backslash"), and so is the conclusion's `runs`.
 
 The oracle is the property statement over the implementation's behaviour; it uses its own Python
 definitions of "quote", "expressible", "maximal non-whitespace runs" and never the Lean model.
@@ -42,8 +49,10 @@ LEVEL_TEXT = ("Proved for ALL strings / token lists about the model: tokenize_to
               "5/7 over a seven-character alphabet and by generated quoted token lists; that the parser and the resolver "
               "cannot tell a command string from the argv list of its tokens is checked on the real classes, not proved.")
 LEVEL_NOTE = ("Trusted: Lean kernel + propext/Quot.sound/Classical.choice; the hand-written model (fidelity = what the "
-              "correspondence sampled, exhaustively up to length 7 in the thorough tier); the str.isspace table generator; "
-              "this harness.  Not modelled: CPython's recursion limit (about 990 nested alternating quotes raise "
+              "correspondence sampled, exhaustively up to length 7 in the thorough tier); this harness.  The generated "
+              "str.isspace table is no longer only trusted: the model's table is compared with str.isspace of the running "
+              "interpreter on every code point (stream w), and the model's decisions of the theorems' hypotheses (wfPieces, "
+              "expressible, unquoted) are compared with the same conditions stated in Python on every case.  Not modelled: CPython's recursion limit (about 990 nested alternating quotes raise "
               "RecursionError), lone surrogates.")
 LEAN_MODULES = ["Clikit.Props.C08"]
 REQUIRED_THEOREMS = ["Clikit.Props.C08." + n for n in (
@@ -51,19 +60,21 @@ REQUIRED_THEOREMS = ["Clikit.Props.C08." + n for n in (
     "object_model_eq", "object_model_total", "quote_roundtrip", "quote_roundtrip_single", "quote_roundtrip_iff", "roundtrip_needs_expressible", "unquoted_split",
     "runs_nonempty_nospace", "option_tokens_takeWhile", "option_tokens_raw", "option_tokens_cut",
     "option_tokens_all", "option_tokens_prefix", "option_token_after_dashes", "string_argv_same",
-    "quoted_string_is_argv")]
+    "quoted_string_is_argv", "string_argv_same_total", "option_tokens_split", "option_tokens_idem",
+    "option_tokens_tail_irrelevant")]
 RULE = ("s: exhaustive strings up to length 5 (quick) / 7 (thorough) over {a,space,tab,',\",\\,-}, each up to length 5 "
         "also quoted as a token in both quote styles, plus seeded random strings of length 0-12 over the wide alphabet; q: seeded random token lists (0-4 tokens x 0-5 chars over letters, "
         "ASCII/non-ASCII whitespace, quotes, backslash, '-', '=', non-ASCII) x style per token x separators, plus a negative "
         "sub-stream violating one round-trip hypothesis; a: command-line vocabulary rendered the same way, string form vs "
-        "argv form through parser, resolver and create_io; v: argv lists over the same vocabulary given to ArgvArgs directly; d: nesting depth probes.  Non-trivial = the input contains a "
+        "argv form through parser, resolver and create_io; v: argv lists over the same vocabulary given to ArgvArgs directly; d: nesting depth probes; w: the whitespace table on all code points in blocks of 8192.  Non-trivial = the input contains a "
         "quote or a backslash, or yields at least two tokens; distinct = distinct (stream, input string)")
 TRUSTED_BASE = [
     "Lean 4.33 kernel; axioms propext, Classical.choice, Quot.sound only (audited per theorem on every run)",
     "lean/Clikit/Model/Tokenizer.lean: hand-written model of TokenParser on its object state (_string, _cursor, _current, "
     "_next_), method by method (proved equal to the remaining-text scanner: object_model_eq), StringArgs, ArgvArgs - "
     "fidelity is what the correspondence run compared",
-    "tools/genparts/c08.py: str.isspace table of the running interpreter, ast shape checks of token_parser.py / *_args.py",
+    "tools/genparts/c08.py: str.isspace table of the running interpreter (checked on every code point by stream w), ast "
+    "shape checks of token_parser.py / *_args.py",
     "harness/props/c08.py: generators, canonicalisation, Python statement of quote/expressible/runs used by the oracle",
     "CPython str semantics (code points, str.isspace), Lean.Data.Json and the compiled driver",
 ]
@@ -262,6 +273,8 @@ def generate(tier, rng):
     for s in ["\\", "a\\", "'a\\", "''", "'' \"\"", "a''", "'a", "\"'x'\"", "'\"", "-- -v", "-v -- -q --", "a\xa0b\u3000c",
               "\x1c\x1d\x1e\x1f", "caf\xe9 '\U0001F600 \u2713'", "--to='a b' x", "\\'", "\\\"", "'\\\\'"]:
         yield {"k": "s", "s": s}
+    for lo in range(0, 0x110000, 0x2000):
+        yield {"k": "w", "lo": lo, "n": 0x2000}
     for depth in (10, 50, 200, 400):
         yield {"k": "d", "s": ("'\"" * depth)[:depth]}
         yield {"k": "d", "s": ("'\"" * depth)[:depth] + "x"}
@@ -449,6 +462,8 @@ def run_impl(case):
             pass
     if k == "v":
         return {"string": "", "raw": _argv_raw(case["argv"])}
+    if k == "w":
+        return {"string": "", "raw": {}, "spaces": [cp for cp in range(case["lo"], case["lo"] + case["n"]) if chr(cp).isspace()]}
     if k in ("s", "d"):
         s = case["s"]
         obs = {"string": s, "raw": _string_raw(s)}
@@ -474,6 +489,8 @@ def model_requests(case):
     k = case["k"]
     if k == "v":
         return [{"m": "c08.argv", "argv": case["argv"]}]
+    if k == "w":
+        return [{"m": "c08.spaces", "lo": case["lo"], "n": case["n"]}]
     if k in ("s", "d"):
         s = case["s"]
         reqs = [{"m": "c08.tokenize", "s": s}]
@@ -501,20 +518,37 @@ def model_obs(case, answers):
     k = case["k"]
     if k == "v":
         return {"string": "", "raw": _m_raw(answers[0])}
+    if k == "w":
+        return {"spaces": answers[0]["spaces"]}
     if k in ("s", "d"):
-        out = {"string": case["s"], "raw": _m_raw(answers[0])}
+        # `unquoted` is the hypothesis of unquoted_split, `runs` its conclusion's right-hand side
+        out = {"string": case["s"], "raw": _m_raw(answers[0]), "unquoted": answers[0]["unquoted"],
+               "runs": [_dec(t) for t in answers[0]["runs"]]}
         if len(answers) == 3:
             out["as_token"] = {"single": _m_raw(answers[1]), "double": _m_raw(answers[2])}
             out["as_token_string"] = {"single": _dec(answers[1]["string"]), "double": _dec(answers[2]["string"])}
+            # the hypothesis of quote_roundtrip_single / quote_roundtrip_iff (`expressible`), as the model decides it
+            out["as_token_wf"] = {"single": answers[1]["wf"], "double": answers[2]["wf"]}
         return out
-    return {"string": _dec(answers[0]["string"]), "raw": _m_raw(answers[0])}
+    # `wf` = the hypotheses of quote_roundtrip (wfPieces true ps, trailing whitespace), as the model decides them
+    return {"string": _dec(answers[0]["string"]), "raw": _m_raw(answers[0]), "wf": answers[0]["wf"]}
 
 
 def impl_view(case, obs):
+    k = case["k"]
+    if k == "w":
+        return {"spaces": obs["spaces"]}
     out = {"string": obs["string"], "raw": obs["raw"]}
+    if k in ("s", "d"):
+        s = case["s"]
+        out["unquoted"] = not any(c in s for c in "'\"\\")
+        out["runs"] = py_runs(s)
+    elif k in ("q", "a"):
+        out["wf"] = py_wf(case["pieces"], case["trail"])
     if "as_token" in obs:
         out["as_token"] = obs["as_token"]
         out["as_token_string"] = {st: py_write(st, case["s"]) for st in ("single", "double")}
+        out["as_token_wf"] = {st: py_expressible(case["s"]) for st in ("single", "double")}
     return out
 
 
@@ -526,6 +560,8 @@ def _same(a, b, what):
 
 
 def oracle(case, obs):
+    if case["k"] == "w":
+        return None   # the whitespace table is an engine fact: compared with the model, nothing is demanded of clikit
     s = obs["string"]
     raw = obs["raw"]
     if case["k"] == "v":
@@ -586,6 +622,8 @@ def oracle(case, obs):
 
 # ------------------------------------------------------------------ statistics, search
 def nontrivial_key(case, obs):
+    if case["k"] == "w":
+        return None
     if case["k"] == "v":
         return "v:" + repr(case["argv"]) if "--" in case["argv"][1:] else None
     s = obs["string"]
@@ -599,6 +637,8 @@ def bucket(case, obs):
     s = obs["string"]
     k = case["k"]
     raw = obs["raw"]
+    if k == "w":
+        return "w isspace table, %d whitespace code point(s) in the block" % min(len(obs["spaces"]), 9)
     if k == "v":
         return "v n=%d %s" % (len(case["argv"]), raw.get("exc") or ("with --" if "--" in raw["tokens"] else "no --"))
     feats = "".join(f for f, on in (("q", any(c in s for c in QUOTES)), ("b", "\\" in s),
@@ -652,6 +692,12 @@ def _edits(s, alphabet):
 
 def shrink(case):
     k = case["k"]
+    if k == "w":
+        if case["n"] > 1:
+            h = case["n"] // 2
+            yield {"k": "w", "lo": case["lo"], "n": h}
+            yield {"k": "w", "lo": case["lo"] + h, "n": case["n"] - h}
+        return
     if k == "v":
         a = case["argv"]
         for i in range(len(a)):
@@ -686,6 +732,8 @@ def shrink(case):
 
 def neighbours(case):
     k = case["k"]
+    if k == "w":
+        return
     if k == "v":
         a = case["argv"]
         for i in range(len(a) + 1):
